@@ -693,9 +693,13 @@ def units(tier, seed):
                        dict(w=w, h=h, mag=mag), split=2,
                        witnesses=("walked", "empty")))
     n = _T_MAX if thorough else _Q_MAX
-    for w in range(1, n + 1):
-        for h in range(1, n + 1):
-            us.append(Unit("torus %02dx%02d" % (w, h), h_torus,
-                           dict(w=w, h=h),
-                           witnesses=("lemma", "length", "vector")))
+    sizes = [(w, h) for w in range(1, n + 1) for h in range(1, n + 1)]
+    if not thorough:
+        # elongated tori (long side more than three times the short one):
+        # several spirals around the short axis are possible only there
+        sizes += [(16, 3), (3, 16), (22, 4), (5, 24), (24, 1), (2, 19)]
+    for (w, h) in sizes:
+        us.append(Unit("torus %02dx%02d" % (w, h), h_torus,
+                       dict(w=w, h=h),
+                       witnesses=("lemma", "length", "vector")))
     return us
